@@ -226,6 +226,22 @@ func c20Case(c *Ctx, i int64) {
 		}
 		c.Violation(key, fmt.Sprintf("lz4c compress %v: %s", fl.args(), b[1]), det())
 	}
+	// 1b. where the reference implementation's lz4 command is installed it must decode the file to the input
+	if len(z) <= 20<<20 {
+		if refCLI() == "" {
+			c.Count("reference_cli_unavailable", 1)
+		} else {
+			out, msg, err := refCLIDecode(z)
+			c.Count("files_decoded_by_the_reference_cli", 1)
+			if err != nil {
+				c.Violation("reference-cli-rejects", fmt.Sprintf("lz4c compress %v: the reference implementation's lz4 command rejects the file: %v %s", fl.args(), err, msg), det())
+			} else if !bytes.Equal(out, data) {
+				c.Violation("reference-cli-decodes-differently", fmt.Sprintf("lz4c compress %v: the reference implementation's lz4 command decodes the file to %d bytes that differ from the %d input bytes", fl.args(), len(out), len(data)), det())
+			} else {
+				c.Count("reference_cli_agrees", 1)
+			}
+		}
+	}
 	// 2. -l N: byte-identical to the library Writer at that level (deterministic by C14)
 	if pf.ContentChecksum == !fl.sc && !bytes.Equal(z, want.Bytes()) && !bytes.Equal(z, want2.Bytes()) {
 		key := "output-differs-from-library-writer"
